@@ -6,7 +6,7 @@
 (*                                           AddCallback / RemoveCallback / *)
 (*                                           runWorker, appendStore.Put     *)
 (*   internal/chain/boltdb (cursor = read transaction = snapshot at open)   *)
-(*   internal/chain/memdb  (positional cursor over the live slice)          *)
+(*   internal/chain/memdb  (round-based cursor over the live ring buffer)   *)
 (* One action per critical section / call (Appendix A.2 of DESIGN.md).      *)
 (*                                                                         *)
 (* store      rounds lo..head (content is a function of the round; the      *)
@@ -40,7 +40,7 @@ CONSTANTS Streams,    \* stream (client connection) ids, naturals >= 1
           InitHead,   \* rounds 0..InitHead stored initially
           MaxR,       \* last round the writers append
           Froms,      \* start rounds requested by clients
-          Backend,    \* "bolt" (snapshot cursor) | "mem" (live positional cursor)
+          Backend,    \* "bolt" (snapshot cursor) | "mem" (live cursor that remembers its round)
           Buf,        \* memdb buffer size (eviction of the oldest beyond it)
           Remap,      \* TRUE: every bolt write has to grow (re-map) the file - bbolt cannot re-map while a
                       \* read transaction (cursor scan) is open, the write waits for all open scans
@@ -76,29 +76,40 @@ ScanRounds(f, h) == IF f = 0 THEN <<>> ELSE [i \in 1..(IF h >= f THEN h - f + 1 
 \* ---- C11 monitors over the sequence of rounds handed to Send of ONE stream
 NoRepeat(seq) == \A i, j \in DOMAIN seq : i # j => seq[i] # seq[j]
 InOrder(seq)  == \A i \in DOMAIN seq : i > 1 => seq[i - 1] <= seq[i]
-NoGap(seq)    == \A i \in DOMAIN seq : i > 1 => seq[i] <= seq[i - 1] + 1
+\* no STORED round is skipped: l = lowest round the store still holds.  bolt keeps everything (l = 0,
+\* i.e. every jump is a gap); the memdb ring buffer forgets its oldest rounds, a round that was evicted
+\* before the stream reached it cannot be delivered any more and is not counted as skipped
+NoGapL(seq, l) == \A i \in DOMAIN seq : i > 1 => \A m \in (seq[i - 1] + 1)..(seq[i] - 1) : m < l
+NoGap(seq)    == NoGapL(seq, 0)
 FromStart(seq, f) == (f # 0 /\ Len(seq) > 0) => seq[1] = f
 Contiguous(seq, f) == NoRepeat(seq) /\ InOrder(seq) /\ NoGap(seq) /\ FromStart(seq, f)
 \* incremental form: is appending r to seq still fine?  (name of the first monitor that breaks, or "ok")
-SendVerdict(seq, f, r) ==
+SendVerdictL(seq, f, r, l) ==
   IF Len(seq) = 0 THEN (IF f # 0 /\ r # f THEN "FromStart" ELSE "ok")
   ELSE IF r \in Range(seq) THEN "NoRepeat"
   ELSE IF r < Last(seq) THEN "InOrder"
-  ELSE IF r > Last(seq) + 1 THEN "NoGap"
+  ELSE IF \E m \in (Last(seq) + 1)..(r - 1) : m >= l THEN "NoGap"
   ELSE "ok"
+SendVerdict(seq, f, r) == SendVerdictL(seq, f, r, 0)
 \* the monitors broken by some prefix of seq, judged send by send as the trace spec does
-Verdicts(seq, f) == {SendVerdict(SubSeq(seq, 1, i - 1), f, seq[i]) : i \in DOMAIN seq} \ {"ok"}
+VerdictsL(seq, f, l) == {SendVerdictL(SubSeq(seq, 1, i - 1), f, seq[i], l) : i \in DOMAIN seq} \ {"ok"}
+Verdicts(seq, f) == VerdictsL(seq, f, 0)
 \* a healthy registered stream has received everything once the system is quiet
 Complete(seq, f, h) == LET R == Range(seq) IN
                        IF f # 0 THEN \A r \in f..h : r \in R
                        ELSE Len(seq) > 0 => \A r \in seq[1]..h : r \in R
+\* ... except rounds the ring buffer no longer holds
+CompleteL(seq, f, h, l) == LET R == Range(seq) IN
+                           IF f # 0 THEN \A r \in f..h : r \in R \/ r < l
+                           ELSE Len(seq) > 0 => \A r \in seq[1]..h : r \in R \/ r < l
 Missing(seq, f, h) == LET R == Range(seq) IN
                       IF f # 0 THEN {r \in f..h : r \notin R}
                       ELSE IF Len(seq) > 0 THEN {r \in seq[1]..h : r \notin R} ELSE {}
 
 -----------------------------------------------------------------------------
 Init ==
-  /\ head = InitHead /\ lo = 0
+  /\ head = InitHead
+  /\ lo = IF Backend = "mem" /\ InitHead + 1 > Buf THEN (InitHead + 1) - Buf ELSE 0   \* the ring holds the last Buf rounds
   /\ wr = [w \in Writers |-> [pc |-> "idle", r |-> 0, todo |-> {}]]
   /\ lockW = 0
   /\ cbs = [a \in Addrs |-> 0]
@@ -242,7 +253,7 @@ ScanBegin(s) ==
                       /\ UNCHANGED <<cur, pos>>
                  ELSE /\ pc' = [pc EXCEPT ![s] = "scan"]
                       /\ cur' = [cur EXCEPT ![s] = from[s]]
-                      /\ pos' = [pos EXCEPT ![s] = from[s] - lo]
+                      /\ pos' = pos
   /\ UNCHANGED <<head, lo, wr, lockW, cbs, ch, q, wk, item, from, sent, phase, cons, ctxd, err, nfault>>
 
 \* send(bb) followed by c.Next()
@@ -258,10 +269,10 @@ ScanSend(s) ==
              THEN IF cur[s] + 1 <= snap[s]
                     THEN /\ cur' = [cur EXCEPT ![s] = @ + 1] /\ pc' = pc /\ pos' = pos
                     ELSE /\ pc' = [pc EXCEPT ![s] = "afterScan"] /\ UNCHANGED <<cur, pos>>
-             ELSE IF pos[s] + 1 <= head - lo           \* m.pos++; m.pos < len(store)
-                    THEN /\ pos' = [pos EXCEPT ![s] = @ + 1]
-                         /\ cur' = [cur EXCEPT ![s] = lo + pos[s] + 1]
-                         /\ pc' = pc
+             ELSE \* memDBCursor.Next: the first stored beacon with a greater round (rounds evicted meanwhile are gone)
+                  LET n == IF cur[s] + 1 >= lo THEN cur[s] + 1 ELSE lo IN
+                  IF n <= head
+                    THEN /\ cur' = [cur EXCEPT ![s] = n] /\ pc' = pc /\ pos' = pos
                     ELSE /\ pc' = [pc EXCEPT ![s] = "afterScan"] /\ UNCHANGED <<cur, pos>>
   /\ UNCHANGED <<head, lo, wr, lockW, cbs, ch, q, wk, item, from, snap, cons, ctxd, err, nfault>>
 
@@ -331,7 +342,10 @@ Spec == Init /\ [][Next]_vars
 \* C11
 Mon_NoRepeat  == \A s \in Streams : NoRepeat(sent[s])
 Mon_InOrder   == \A s \in Streams : InOrder(sent[s])
-Mon_NoGap     == \A s \in Streams : NoGap(sent[s])
+Mon_NoGap     == \A s \in Streams : NoGapL(sent[s], lo)
+\* the catch-up scan alone (cursor behaviour): consecutive scan sends skip no stored round
+Mon_ScanNoGap == \A s \in Streams : \A i \in DOMAIN sent[s] :
+                   (i > 1 /\ phase[s][i] = "scan") => \A m \in (sent[s][i - 1] + 1)..(sent[s][i] - 1) : m < lo
 Mon_FromStart == \A s \in Streams : FromStart(sent[s], from[s])
 Mon_C11 == Mon_NoRepeat /\ Mon_InOrder /\ Mon_NoGap /\ Mon_FromStart
 
@@ -343,7 +357,7 @@ Quiet == /\ \A w \in Writers : wr[w].pc = "idle"
 \* removed behind its back silently stops)
 Mon_LiveComplete == Quiet => \A s \in Streams :
                       (pc[s] = "live" /\ Healthy(s) /\ err[s] = "none") =>
-                          ch[s] = "open" /\ Complete(sent[s], from[s], head)
+                          ch[s] = "open" /\ CompleteL(sent[s], from[s], head, lo)
 
 \* C12 (callback half)
 StalledWorker(s) == wk[s] = "busy" /\ cons[s] = "stalled"
